@@ -146,9 +146,9 @@ func c02Gen(tier string, emit func(c02Case)) {
 	for _, pat := range c02Pool {
 		paths := c02PathCache[pat]
 		stride := 1
-		if tier == "quick" && len(paths) > 50 {
+		if tier == "quick" && len(paths) > 35 {
 			// quick: every path is still requested (as q) against a spread of first paths
-			stride = len(paths) / 50
+			stride = len(paths) / 35
 		}
 		for _, cc := range caches {
 			for i := 0; i < len(paths); i += stride {
@@ -370,7 +370,7 @@ var c02Spec = fw.Spec[c02Case]{
 		for _, p := range c02Pool {
 			n += len(c02PathCache[p])
 		}
-		return map[string]any{"patterns": len(c02Pool), "values": len(c02Values), "candidate_paths_total": n, "cache": "off,1,2", "first_path_stride": map[string]string{"quick": "<=~50 first paths per pattern (every path is still used as q)", "thorough": "all"}[tier]}
+		return map[string]any{"patterns": len(c02Pool), "values": len(c02Values), "candidate_paths_total": n, "cache": "off,1,2", "first_path_stride": map[string]string{"quick": "<=~35 first paths per pattern (every path is still used as q)", "thorough": "all"}[tier]}
 	},
 	Gen:   c02Gen,
 	Run:   c02Run,
